@@ -69,6 +69,9 @@ func main() {
 	}
 	seed, _ := strconv.Atoi(os.Getenv("VERIF_SEED"))
 
+	if *prop == "ALL" {
+		os.Exit(runAll(*repo, *out))
+	}
 	pd := properties[*prop]
 	if pd == nil {
 		fmt.Fprintf(os.Stderr, "unknown or unclaimed property %q\n", *prop)
@@ -281,4 +284,76 @@ var trustedBase = []string{
 	"Go type checker (go/types) and golang.org/x/tools v0.29.0 go/packages, go/ssa, callgraph/vta+cha",
 	"third-party code behaves as documented: tidwall/btree Copy is copy-on-write, tomb.v2 Kill/Alive/Wait, mongo-driver bson codec, shopspring/decimal",
 	"reflect/unsafe are not modelled (assertOptions, DecodeList use reflect on caller-owned values; index/sort tie-breaks use pointer identity)",
+}
+
+
+// runAll loads the repo once, runs every registered rule once and prints a verdict per claimed
+// property (used to evaluate seeded changes quickly; writes no evidence).
+func runAll(repo, out string) int {
+	absRepo, _ := filepath.Abs(repo)
+	c, err := loadRepo(absRepo, true)
+	if err != nil {
+		fmt.Fprintf(os.Stderr, "lungocheck: cannot analyse %s: %v\n", repo, err)
+		fmt.Println("ALL: UNANALYSABLE")
+		return 2
+	}
+	known, _ := loadKnown(filepath.Join(out, "known_findings.json"))
+	res := map[string][]Obligation{}
+	var ids []string
+	for id := range allRules {
+		ids = append(ids, id)
+	}
+	sort.Strings(ids)
+	for _, id := range ids {
+		rep := &Reporter{rule: id}
+		func() {
+			defer func() {
+				if p := recover(); p != nil {
+					rep.unk("analysis-panic", "-", fmt.Sprintf("rule panicked: %v", p))
+				}
+			}()
+			allRules[id].Run(c, rep)
+		}()
+		res[id] = rep.obs
+	}
+	for _, id := range ids {
+		for _, o := range res[id] {
+			if o.Status != Discharged {
+				fmt.Printf("RULE %s %s %s @ %s :: %s\n", id, o.Status, o.Construct, o.Pos, firstLine(o.Detail))
+			}
+		}
+	}
+	var pids []string
+	for pid := range properties {
+		pids = append(pids, pid)
+	}
+	sort.Strings(pids)
+	rc := 0
+	for _, pid := range pids {
+		pd := properties[pid]
+		var bad []string
+		for _, rid := range pd.Rules {
+			for _, o := range res[rid] {
+				if o.Status == Discharged {
+					continue
+				}
+				isKnown := false
+				for _, k := range known {
+					if k.Status == "known" && k.Property == pid && k.Rule == o.Rule && k.Construct == o.Construct {
+						isKnown = true
+					}
+				}
+				if !isKnown {
+					bad = append(bad, fmt.Sprintf("%s[%s @ %s]", o.Rule, o.Construct, o.Pos))
+				}
+			}
+		}
+		if len(bad) > 0 {
+			rc = 1
+			fmt.Printf("PROP %s VIOLATED %d: %s\n", pid, len(bad), strings.Join(bad, " ; "))
+		} else {
+			fmt.Printf("PROP %s ok\n", pid)
+		}
+	}
+	return rc
 }
